@@ -183,17 +183,42 @@ func (w *World) verifyFunc(fn *ssa.Function, fc *FuncContract, mode string, extr
 			c.assume(tAnd(Rret, when), tEq(app("ownerOf", x.L[0]), y.L[0]))
 			c.note("ghost ownership fixed at allocation (uninterpreted owner function): %s", ow.Text)
 		}
+		// exits: the merged exit state, or (flag perreturn) one exit per return statement, which spares the
+		// solver the ite-merged heap of early-return paths
+		type exitT struct {
+			env  *Env
+			cond string
+			sfx  string
+		}
+		exits := []exitT{{penv, Rret, ""}}
+		if fc.Flags["perreturn"] && len(fr.rets) > 1 {
+			exits = nil
+			rets := append([]retInfo(nil), fr.rets...)
+			sort.SliceStable(rets, func(a, b int) bool { return rets[a].pos < rets[b].pos })
+			for k, r := range rets {
+				pv := map[string]Val{}
+				for n, v := range vars {
+					pv[n] = v
+				}
+				for i, n := range fc.Results {
+					pv[n] = r.vals[i]
+				}
+				exits = append(exits, exitT{&Env{c: c, st: r.st, old: entry, vars: pv, pkg: pkg, guard: r.cond}, r.cond, fmt.Sprintf("@ret%d", k+1)})
+			}
+		}
 		for i, en := range fc.Ensures {
 			label := en.Label
 			if label == "" {
 				label = fmt.Sprintf("post%d", i+1)
 			}
-			for k, cj := range c.splitGoal(penv, en.E) {
-				nm := label
-				if cj.n > 1 {
-					nm = fmt.Sprintf("%s.%d", label, k+1)
+			for _, ex := range exits {
+				for k, cj := range c.splitGoal(ex.env, en.E) {
+					nm := label
+					if cj.n > 1 {
+						nm = fmt.Sprintf("%s.%d", label, k+1)
+					}
+					c.oblige("ensures", nm+ex.sfx, ex.cond, cj.t)
 				}
-				c.oblige("ensures", nm, Rret, cj.t)
 			}
 		}
 		if fc.HasModifies && !fc.ModAll {
